@@ -10,7 +10,7 @@ import itertools
 import json
 
 from vf import doc, explore, harness, sched, seeds
-from vf.data import Scenario, build_root
+from vf.data import Scenario, build_root, lookup
 from vf.model import coerce as C, execute as X
 from vf.props import c02
 from vf.props.c02 import Bad
@@ -63,6 +63,7 @@ def shards(tier, seed):
         for first in ALPHABET + [""]:
             items.append(("seq", di, first, L))
     items.append(("refused", tier))
+    items.append(("custom-default-resolver", tier))
     if tier == "thorough":
         items.append(("two-streams", tier))
     return items
@@ -168,6 +169,51 @@ def run_shard(item):
                     "replay": {"doc": di, "seq": list(seq), "choices": choices}})
         if first == "W":
             out["samples"].append({"document": text, "event_sequences": ["".join(s) or "(empty)" for s in seqs[:6]], "count": len(seqs)})
+    elif item[0] == "custom-default-resolver":
+        # the subscription root field has a source but no @Resolver: each event is answered through the engine's
+        # custom_default_resolver (here: it prefers the key "cdr_<field>" of the payload), like any other field without resolver
+        async def cdr(parent, args, ctx, info):
+            if isinstance(parent, dict) and ("cdr_" + info.field_name) in parent:
+                return parent["cdr_" + info.field_name]
+            return lookup(parent, info.field_name)
+
+        fqs = {"%s.%s" % (td.name, f.name) for td in schema.types if td.kind == "OBJECT" for f in td.fields} - {"Subscription.tick", "Subscription.count", "A.name"}
+        eng2 = explore.engine_for("K-c14-cdr", schema, resolvers=fqs, custom_default_resolver=cdr)
+        for label, text, variables in DOCS:
+            text, located = doc.roundtrip(doc.parse(text))
+            op = located.operations[0].name
+            for seq in (("W",), ("W", "W"), ("W", "E2", "W"), ("N", "W")):
+                seen_by_model = [payload(k, i, schema) for i, k in enumerate(seq)]
+                events = []
+                for i, ev in enumerate(seen_by_model):
+                    if ev is None:
+                        events.append(None)
+                        continue
+                    decoy = payload("W", 50 + i, schema)
+                    real = dict(ev)
+                    raw = {"tick": decoy["tick"], "count": 1000 + i, "cdr_tick": real["tick"], "cdr_count": real["count"]}
+                    if isinstance(real["tick"], dict):
+                        a = dict(real["tick"])
+                        a["cdr_name"] = a.get("name")
+                        a["name"] = "decoy"
+                        raw["cdr_tick"] = a
+                    events.append(raw)
+                scn = Scenario(root=None)
+                scn.source_events = events
+                try:
+                    resps = harness.subscribe_all(eng2, text, scn, operation_name=op, variables=variables, limit=10)
+                    clause = judge_stream(schema, located, op, variables, scn, seen_by_model, resps)
+                except Exception as e:  # noqa
+                    resps, clause = [repr(e)], "subscribe-raised"
+                out["counts"]["sequences"] += 1
+                out["counts"]["schedules"] += 1
+                out["counts"]["responses_compared"] += len(seq)
+                if clause:
+                    out["violations"].append({"signature": "%s|custom-default-resolver|%s" % (clause, label),
+                                              "summary": "%s: %s events=%r (engine with custom_default_resolver, root field without @Resolver) -> %r"
+                                                         % (clause, text, seq, resps),
+                                              "replay": {"custom_default_resolver": label}})
+        out["samples"].append({"custom_default_resolver": "root field without @Resolver, payload keys cdr_<field> preferred"})
     elif item[0] == "refused":
         for label, text, variables in REFUSED:
             scn = Scenario(root=None)
@@ -289,6 +335,8 @@ def finish(agg, tier):
 
 def replay(rec):
     r = rec["replay"]
+    if "custom_default_resolver" in r:
+        return run_shard(("custom-default-resolver", "quick"))["violations"]
     if "refused" in r:
         return run_shard(("refused", "quick"))["violations"]
     if "two" in r:
